@@ -628,9 +628,9 @@ func genCtor(c *lib.Ctx) {
 		tlsCfg(c, "ke.example", "", "")
 	}
 	c.Comment("main.* random stream")
-	for i := 0; i < c.Scale(700, 20000); i++ {
+	for i := 0; i < c.Scale(700, 8000); i++ {
 		k := pick(ntskeValid)
-		if r.Chance(c.Scale(2, 8)) {
+		if r.Chance(c.Scale(2, 4)) {
 			k = pick(ntskeInvalid)
 		}
 		if k == "-" {
@@ -938,7 +938,7 @@ func genSync(c *lib.Ctx) {
 			return float64(r.Range(1, 5000000)) / float64([]int64{1, 10, 1000, 1000000, 1000000000}[r.Intn(5)])
 		}
 	}
-	for i := 0; i < c.Scale(2500, 200000); i++ {
+	for i := 0; i < c.Scale(2500, 30000); i++ {
 		switch r.Intn(8) {
 		case 0, 1, 2:
 			one(syncIn{rf(factors), rf(factors), rf(seconds), rf(seconds), rf(seconds)})
